@@ -291,6 +291,18 @@ def run(ctx):
     if sentinel_answers and fresh not in sentinel_answers:
         pfam.report(ctx, "trace", {"kind": "history", "entry": "parse_statements", "dialect": SENTINEL[0], "input": SENTINEL[1], "observed": [fresh] + sorted(sentinel_answers)[:1],
                                    "oracle": "c07: sentinel in a fresh process differs", "how_found": "sentinel"})
+    # small scope: every token sequence up to a length over the alphabets of tools/harness/smallscope.py — almost all malformed; each outcome must be a tree or
+    # the library's error family
+    import smallscope
+
+    def judge_ss(nm, entry, d, t, a):
+        k = a.split(" ")[0]
+        if k in FAMILY or k == "OK" or a.startswith("UNMODELLED"):
+            return
+        sig = "foreign:" + a.split(" ")[1] if a.startswith("PY ") else ("hang" if k == "HANG" else "other:" + k)
+        pfam.report(ctx, sig, {"kind": "input", "entry": "parse_" + entry, "dialect": d, "input": t, "observed": a[:300], "request": "P",
+                               "oracle": "c07: outcome must be a tree or LexicalParseError / SqlParseError / NotSupportError", "how_found": "stream small-scope:" + nm})
+    smallscope.run(ctx, list(smallscope.ALPHABETS), dialects=("DB2",), thorough_dialects=("DB2", "ORACLE"), judge=judge_ss)
     missing = [e for e in ALL_ENTRIES if not ctx.cov["distribution"].get("entry:" + e)]
     if missing:
         ctx.note_broken("correspondence", "entry-points", "no request for the entry point(s) %s" % missing)
